@@ -19,8 +19,8 @@ def population(ctx, kind):
         if ctx.quick():
             return ["-corpus", CORPUS, "-small-max", 3, "-small-slices", 8, "-small-slice", s % 8,
                     "-nrand", 400, "-ndp", 100, "-nctx", 60, "-nexpr", 40, "-nplanted", 300]
-        return ["-corpus", CORPUS, "-small-max", 3, "-nrand", 6000, "-ndp", 1500, "-nctx", 800,
-                "-nexpr", 400, "-nplanted", 3000]
+        return ["-corpus", CORPUS, "-small-max", 3, "-nrand", 30000, "-ndp", 6000, "-nctx", 4000,
+                "-nexpr", 2000, "-nplanted", 15000]
     if kind == "lalr":     # C03, C04, C05
         if ctx.quick():
             return ["-corpus", CORPUS, "-small-max", 3, "-small-slices", 16, "-small-slice", s % 16,
